@@ -16,7 +16,7 @@ BATCH = 150
 EXT = {"python": "py", "javascript": "js", "java": "java", "c": "c", "php": "php", "go": "go"}
 
 
-TESTED = {"if", "if-else", "while", "while-else", "cfor", "dowhile"}
+TESTED = {"if", "if-else", "while", "while-else", "cfor", "cfor-noupd", "dowhile"}
 CLASS_OPS = ("class_decl", "interface_decl", "record_decl", "enum_decl", "struct_decl")
 
 
